@@ -26,7 +26,11 @@ PROP = "C15"
 FILES = ["dagrt/codegen/fortran.py", "dagrt/codegen/python.py", "dagrt/codegen/dag_ast.py",
          "dagrt/codegen/transform.py", "dagrt/codegen/analysis.py", "dagrt/language.py"]
 
-UNORDERED_ATTRS = {"depends_on"}
+# global_table: the kind table's global part is (also) filled in a loop over a set of component ids (fortran.py, keyed store
+# through SymbolKindTable.set), so its insertion order follows the hash order: every iteration over it must be laundered
+UNORDERED_ATTRS = {"depends_on", "global_table"}
+KEYED_STORE_METHODS = {"set": "SymbolKindTable.set(phase, name, kind) stores under `name`; entries under distinct names commute "
+                              "(the table's insertion order does not: global_table is treated as unordered)"}
 UNORDERED_CALLS = {"set", "frozenset", "get_read_variables", "get_written_variables", "get_variables",
                    "existing_var_names", "get_names_in_ast_structure", "intersection", "union", "difference",
                    "collect_user_types", "get_all_used_identifiers"}
@@ -90,6 +94,49 @@ class Taint:
         return False
 
 
+_DISCOVERED = {}
+
+
+def discover_unordered_returns():
+    """functions of the scanned files that return an unordered collection (a `return` whose value the taint analysis classifies
+    as unordered), added to UNORDERED_CALLS by name until nothing changes; re-done when a file changes"""
+    import os
+    key = tuple((rel, os.stat(os.path.join(extract.REPO, rel)).st_mtime_ns) for rel in FILES)
+    if _DISCOVERED.get("key") == key:
+        return _DISCOVERED["names"]
+    found = set()
+    changed = True
+    while changed:
+        changed = False
+        for rel in FILES:
+            tree, _ = extract.parse_module(rel)
+            for fn in [n for n in pyast.walk(tree) if isinstance(n, pyast.FunctionDef)]:
+                if fn.name in UNORDERED_CALLS:
+                    continue
+                taint = None
+                for node in pyast.walk(fn):
+                    if isinstance(node, pyast.Return) and node.value is not None:
+                        # a return of a nested function belongs to that function
+                        taint = taint or Taint(fn)
+                        if taint.unordered(node.value) and _owner(fn, node) is fn:
+                            UNORDERED_CALLS.add(fn.name)
+                            found.add("%s:%s" % (rel, fn.name))
+                            changed = True
+                            break
+    _DISCOVERED["key"], _DISCOVERED["names"] = key, sorted(found)
+    return _DISCOVERED["names"]
+
+
+def _owner(fn, node):
+    """the innermost function definition of fn's tree that contains node"""
+    best = fn
+    for d in pyast.walk(fn):
+        if isinstance(d, (pyast.FunctionDef, pyast.Lambda)) and d is not fn:
+            if any(x is node for x in pyast.walk(d)):
+                best = d
+    return best
+
+
 def body_is_order_insensitive(stmts, var_names, taint):
     """a loop body whose executions for different elements commute: it only grows sets, stores under a key that
     is the element itself, or skips; no output, no append, no early exit that depends on order"""
@@ -100,6 +147,9 @@ def body_is_order_insensitive(stmts, var_names, taint):
             c = st.value
             if isinstance(c.func, pyast.Attribute) and c.func.attr in SET_MUTATORS:
                 continue
+            if isinstance(c.func, pyast.Attribute) and c.func.attr in KEYED_STORE_METHODS and any(
+                    _names(a) & var_names for a in c.args[:2]):
+                continue                                   # table.set(scope, <key built from the element>, value)
             return False
         if isinstance(st, pyast.Expr) and isinstance(st.value, pyast.Constant):
             continue
@@ -247,7 +297,8 @@ class SitesUnit(Unit):
 
     def generate(self):
         obs = []
-        info = {"files": FILES, "unordered_sites": 0, "all_iteration_sites": 0}
+        info = {"files": FILES, "unordered_sites": 0, "all_iteration_sites": 0,
+                "functions_found_to_return_unordered_collections": discover_unordered_returns()}
         for rel in FILES:
             tree, _ = extract.parse_module(rel)
             info["all_iteration_sites"] += sum(
@@ -298,16 +349,23 @@ class GlobalStateUnit(Unit):
 
 
 def units():
-    from . import c01driver
-    return c01driver.units_c15() + [SitesUnit(), GlobalStateUnit(), LeanUnit("lemma:L-PERM", "lemmas/LPerm.lean", ["run_eq_of_linear_extensions"])]
+    from . import c01driver, c15frame
+    return (c01driver.units_c15() + [SitesUnit(), GlobalStateUnit(),
+                                     LeanUnit("lemma:L-PERM", "lemmas/LPerm.lean", ["run_eq_of_linear_extensions"])]
+            + c15frame.units())
 
 
 LEVEL = "other"
 BOUNDED = {"quick": {"timeout_s": 150}, "thorough": {"timeout_s": 1200}}
 TRUSTED_BASE = [
-    "the taint analysis' list of unordered sources (set/frozenset constructors, literals, comprehensions and operators, `.depends_on`, get_read_variables / get_written_variables / get_variables / existing_var_names and locals assigned from them) is complete for the six files; dicts are insertion ordered and their insertion order is itself determined by ordered iteration (not re-checked per dict)",
+    "the taint analysis' unordered sources: set/frozenset constructors, literals, comprehensions and operators, `.depends_on`, `.global_table`, get_read_variables / get_written_variables / get_variables / existing_var_names, every function of the six files found (on every run) to return such a collection, and locals assigned from them; dicts are insertion ordered and, global_table aside, their insertion order is itself determined by ordered iteration (not re-checked per dict)",
     "L-PERM (Lean): a loop whose iterations commute pairwise has an effect that is a function of the set iterated",
     "the effect patterns accepted as commuting (set growth, store under the element as key, set/dict comprehension, order-free consumers any/all/len/sum/min/max/sorted/set) are commuting",
+]
+from pyvc.frame import frame_assumptions as _fa
+TRUSTED_BASE += _fa() + [
+    "A-FRAME-TYPES: the objects reachable from a FunctionRegistry / Function on which register_codegen, get_codegen, resolve_args, get_result_kinds are called are instances of the classes of function_registry.py (each method of which has its own frame obligation) or user classes that keep the same frame condition; constructors of the kind classes (Array, UserType, Scalar, Integer, Boolean) only store their arguments",
+    "history clause, scope of the frame conditions: state that outlives a generator object inside dagrt is module-level objects, shared class attributes, mutable default arguments and rebinding through `global` (enumerated from the AST on every run); state inside pytools / mako / pymbolic is not examined",
 ]
 ASSUMPTIONS = [
     "PARTIAL (category other): byte identity of the emitted text across processes, hash seeds and generator histories is NOT decided deductively - only by the bounded stand-in (subprocesses with different PYTHONHASHSEED, shuffled containers, a previous generator in the same process)",
@@ -318,4 +376,7 @@ EXPLANATION = ("PARTIAL. From the real source of the six anchored files every it
                "conservative taint analysis, and for every site that iterates an unordered collection one obligation is generated: its effect "
                "is order-insensitive (a set/dict comprehension, an order-free consumer, or a loop body that only grows sets / stores under the "
                "element / skips). A site that does not fit a commuting pattern is an undischarged obligation; on the current tree those are the "
-               "recorded findings. Not decided: cross-process byte identity itself (bounded stand-in).")
+               "recorded findings. History clause: frame conditions (pyvc.frame, a conservative effect analysis of the real AST) show that "
+               "CallCode.__call__, every method of the function registry's classes, dagrt.utils.resolve_args and every function that "
+               "mentions a module-level object, a shared class attribute or a mutable default argument modify nothing reachable from "
+               "them. Not decided: cross-process byte identity itself (bounded stand-in).")
